@@ -76,7 +76,7 @@ CLAIMED = {
          "equal to another machine's while common ones are is part of the C09 check (c09_pair/c09_triple over the same domain objects).",
          "NOT covered: iteration over the symbol table (every entry once, in order, numbered from zero) and the name/value/size/label/binding/"
          "visibility accessors -- they need a model of libdwfl/libelf, which was not built.", '0.3'),
- 'C20': ("Two kernels. (a) Named constants have the value/name the headers define: for each of 17 constant families (DW_TAG, DW_AT, DW_FORM, "
+ 'C20': ("Three kernels. (a) Named constants have the value/name the headers define: for each of 17 constant families (DW_TAG, DW_AT, DW_FORM, "
          "DW_LANG, DW_INL, DW_ATE, DW_ACCESS, DW_VIS, DW_VIRTUALITY, DW_ID, DW_CC, DW_ORD, DW_DSC, DW_DS, DW_OP, DW_END, DW_DEFAULTED) the "
          "stringer of dwcst.cc (its tables regenerated through known-dwarf.awk at check time) returns, for EVERY int code, a name exactly when "
          "/usr/include/dwarf.h (parsed independently by the check) defines that code in the family, the name is the header's, the brief form is "
@@ -86,9 +86,12 @@ CLAIMED = {
          "signed non-negative and signed negative value exactly [-] prefix digits (prefix 0x / 0 / 0b / none in full form, none in brief form; digits of "
          "the magnitude without leading zeros, computed independently by the harness; decimal digits as an uninterpreted function of the magnitude) "
          "and leave the stream's flags as found; every digit count for hex and oct, digit counts 1,2,31,32,33,63,64 (quick) / 1..64 (thorough) for bin. "
-         "That such a text parses back to the value and domain is the C14 literal kernel. Known finding radix_zero: zero of hex/oct/bin renders as 0.",
-         "NOT covered: reading names back as words (vocabulary map, lexer), the %d %x %o %b directives (lexer expansion), the CLI's quoted "
-         "string rendering (dump_charp), format_constant of the API; ELF constant families are under C18 (DESIGN 0.4).", '0.3'),
+         "That such a text parses back to the value and domain is the C14 literal kernel. Known finding radix_zero: zero of hex/oct/bin renders as 0. "
+         "(c) The CLI's brief string rendering: dumper::dump_charp (dwgrep.cc) renders every string of 0..3 arbitrary bytes (quote, backslash, control, "
+         "NUL, percent, high bytes) as a quoted literal that a reader written from lexer.ll's <STRING> rules reads back, to its very end, as exactly "
+         "the same bytes -- hence different values never print alike -- and leaves the stream's flags and fill character as found.",
+         "NOT covered: reading names back as words (vocabulary map, lexer), the %d %x %o %b directives (lexer expansion), strings longer than 3 bytes and "
+         "dump_seq / dump_const of the CLI, format_constant of the API; isprint is the C/UTF-8 locale's; ELF constant families are under C18 (DESIGN 0.4).", '0.3'),
 }
 
 NA = {
